@@ -953,7 +953,7 @@ fn main() {
             }
         }
         // random trees
-        let trees = args.cases.unwrap_or(if args.thorough { 4000 } else { 250 });
+        let trees = args.cases.unwrap_or(if args.thorough { 3000 } else { 250 });
         for i in 0..trees {
             let (main, alt, roots) = gen_case(&mut rng, has_alt);
             let per = if args.thorough { 16 } else { 8 };
